@@ -69,6 +69,13 @@ class Repo:
         self.classes = {}
         for m in self.modules.values():
             self.classes.update(m.classes)
+        # pyplate/__init__.py: class Config (its __init__ is executed on the yaml data to obtain the configuration object)
+        try:
+            self.init_module = Module('init', os.path.join(self.root, 'pyplate', '__init__.py'))
+            for k_, v_ in self.init_module.classes.items():
+                self.classes.setdefault(k_, v_)
+        except (OSError, SyntaxError):
+            self.init_module = None
         self.config_data = load_config(self.root)
 
     def find(self, qual):
